@@ -45,6 +45,79 @@ theorem roundDiv_dyadic_mag {n k N D : Nat} (h0 : 0 < n) (hn : n < 2 ^ 53) (hk :
         rw [Nat.pow_add]; ring
     _ = n * 2 ^ k := by rw [← this]
 
+
+theorem roundDiv_zero' (s : Bool) (D : Nat) (hD : 0 < D) : roundDiv s 0 D = .fin s 0 0 :=
+  roundDiv_repr s hD (by unfold Canon; left; exact ⟨by decide, rfl⟩) (by simp)
+
+/-- a non-negative result of rounding: finite non-negative, or `+∞`. -/
+def NN (x : F64) : Prop := x = .inf false ∨ ∃ m E, x = .fin false m E
+
+theorem roundDiv_NN (N D : Nat) : NN (roundDiv false N D) := by
+  rw [roundDiv_eq]
+  split
+  · exact Or.inl rfl
+  · exact Or.inr ⟨_, _, rfl⟩
+
+theorem leNN_inf {x : F64} (h : NN x) : leNN x (.inf false) := by
+  rcases h with h | ⟨m, E, h⟩ <;> rw [h] <;> trivial
+
+/-- dividing by a fixed positive finite double is monotone on non-negative values. -/
+theorem div_pos_mono (g : Nat) (Eg : Nat) (hg : g ≠ 0) (a b : F64) (ha : NN a) (hb : NN b) (h : leNN a b) :
+    NN (div a (.fin false g Eg)) ∧ NN (div b (.fin false g Eg)) ∧
+      leNN (div a (.fin false g Eg)) (div b (.fin false g Eg)) := by
+  have hD : 0 < g * 2 ^ Eg := Nat.mul_pos (Nat.pos_of_ne_zero hg) (p2 _)
+  have dfin : ∀ m E, div (.fin false m E) (.fin false g Eg) = roundDiv false (m * 2 ^ E * 2 ^ 1074) (g * 2 ^ Eg) := by
+    intro m E; simp only [div, if_neg hg, bne_self_eq_false]
+  have dinf : div (.inf false) (.fin false g Eg) = .inf false := by simp [div]
+  rcases ha with ha | ⟨m1, E1, ha⟩ <;> rcases hb with hb | ⟨m2, E2, hb⟩ <;> subst ha <;> subst hb
+  · rw [dinf]; exact ⟨Or.inl rfl, Or.inl rfl, trivial⟩
+  · exact absurd h (by simp [leNN])
+  · rw [dinf, dfin]
+    generalize m1 * 2 ^ E1 * 2 ^ 1074 = X
+    generalize g * 2 ^ Eg = D
+    exact ⟨roundDiv_NN X D, Or.inl rfl, leNN_inf (roundDiv_NN X D)⟩
+  · rw [dfin, dfin]
+    have h' : m1 * 2 ^ E1 ≤ m2 * 2 ^ E2 := h
+    have hx : m1 * 2 ^ E1 * 2 ^ 1074 * (g * 2 ^ Eg) ≤ m2 * 2 ^ E2 * 2 ^ 1074 * (g * 2 ^ Eg) :=
+      Nat.mul_le_mul_right _ (Nat.mul_le_mul_right _ h')
+    generalize m1 * 2 ^ E1 * 2 ^ 1074 = X1 at hx ⊢
+    generalize m2 * 2 ^ E2 * 2 ^ 1074 = X2 at hx ⊢
+    generalize g * 2 ^ Eg = D at hx hD ⊢
+    exact ⟨roundDiv_NN X1 D, roundDiv_NN X2 D, roundDiv_mono hD hD hx⟩
+
+/-- `uint64(p · x)` is monotone in `x ≥ 0` for a fixed finite `p ≥ 0`, wherever both conversions are defined. -/
+theorem trunc_mul_mono (mp Ep : Nat) (a b : F64) (ha : NN a) (hb : NN b) (h : leNN a b) (v1 v2 : Nat)
+    (h1 : toNatTrunc (mul (.fin false mp Ep) a) = some v1) (h2 : toNatTrunc (mul (.fin false mp Ep) b) = some v2) :
+    v1 ≤ v2 := by
+  have mfin : ∀ m E, mul (.fin false mp Ep) (.fin false m E) = roundDiv false (mp * m * 2 ^ (Ep + E)) (2 ^ 1074) := by
+    intro m E; simp only [mul, bne_self_eq_false]
+  have minf : ∀ v, toNatTrunc (mul (.fin false mp Ep) (.inf false)) ≠ some v := by
+    intro v; simp only [mul]; split <;> simp [toNatTrunc]
+  rcases hb with hb | ⟨m2, E2, hb⟩ <;> subst hb
+  · exact absurd h2 (minf v2)
+  · rcases ha with ha | ⟨m1, E1, ha⟩ <;> subst ha
+    · exact absurd h (by simp [leNN])
+    · rw [mfin] at h1 h2
+      have h' : m1 * 2 ^ E1 ≤ m2 * 2 ^ E2 := h
+      have hm := roundDiv_mono (N1 := mp * m1 * 2 ^ (Ep + E1)) (D1 := 2 ^ 1074) (N2 := mp * m2 * 2 ^ (Ep + E2)) (D2 := 2 ^ 1074)
+        (p2 _) (p2 _) (by
+          apply Nat.mul_le_mul_right
+          calc mp * m1 * 2 ^ (Ep + E1) = mp * 2 ^ Ep * (m1 * 2 ^ E1) := by rw [Nat.pow_add]; ring
+            _ ≤ mp * 2 ^ Ep * (m2 * 2 ^ E2) := Nat.mul_le_mul_left _ h'
+            _ = mp * m2 * 2 ^ (Ep + E2) := by rw [Nat.pow_add]; ring)
+      rcases roundDiv_NN (mp * m1 * 2 ^ (Ep + E1)) (2 ^ 1074) with c1 | ⟨x1, y1, c1⟩ <;>
+        rcases roundDiv_NN (mp * m2 * 2 ^ (Ep + E2)) (2 ^ 1074) with c2 | ⟨x2, y2, c2⟩ <;> rw [c1] at h1 hm <;> rw [c2] at h2 hm
+      · simp [toNatTrunc] at h1
+      · simp [toNatTrunc] at h1
+      · simp [toNatTrunc] at h2
+      · have hle : x1 * 2 ^ y1 ≤ x2 * 2 ^ y2 := hm
+        simp only [toNatTrunc, Bool.false_eq_true, if_false] at h1 h2
+        split at h1 <;> split at h2
+        · cases h1; cases h2; exact Nat.div_le_div_right hle
+        · cases h2
+        · cases h1
+        · cases h1
+
 end ZChain.F64
 
 namespace ZChain.ReadMarker
@@ -154,5 +227,70 @@ theorem chargeOf_zero (price v : Nat) (h : chargeOf price 0 = some v) : v = 0 :=
     simp [F64.toNatTrunc, F64.zero] at h
     exact h.symm
 
+
+
+/-- inside the guard of `commitBlobberRead` (`0 ≤ Δ ≤ MaxInt64/CHUNK_SIZE`) the `int64` byte count does not wrap. -/
+theorem wrap_in_range (n : Int) (h0 : 0 ≤ n) (h : n ≤ maxDelta) :
+    wrapI64 (n * (chunkSize : Int)) = n * (chunkSize : Int) ∧ n * (chunkSize : Int) < 2 ^ 63 := by
+  have hmd : maxDelta = 140737488355327 := by decide
+  have hcs : (chunkSize : Int) = 65536 := by decide
+  rw [hmd] at h
+  rw [hcs]
+  obtain ⟨k, rfl⟩ : ∃ k : Nat, n = (k : Int) := ⟨n.toNat, by omega⟩
+  have hk : k * 65536 < 2 ^ 63 := by omega
+  refine ⟨?_, by omega⟩
+  have := wrapI64_small (k * 65536) hk
+  push_cast at this
+  exact this
+
+/-- at read price 0 nothing is charged, whatever the increment (when the conversion is defined at all). -/
+theorem chargeOf_price_zero (n : Int) (v : Nat) (h : chargeOf 0 n = some v) : v = 0 := by
+  unfold chargeOf at h
+  rw [ofNat_zero] at h
+  generalize sizeRead n = x at h
+  cases x with
+  | nan => simp [F64.mul, F64.zero, F64.toNatTrunc] at h
+  | inf t => simp [F64.mul, F64.zero, F64.toNatTrunc] at h
+  | fin t m E =>
+    simp only [F64.mul, F64.zero, Nat.zero_mul] at h
+    rw [roundDiv_zero' _ _ (p2 _)] at h
+    simp only [F64.toNatTrunc, Nat.zero_mul, Nat.zero_div] at h
+    split at h <;> simp at h <;> exact h.symm
+
+/-- **the charge is monotone in the increment** over the whole range the guard admits (`Δ·CHUNK < 2^63`), for every
+read price below 2^53: beyond the exactness range (`price·Δ·CHUNK ≥ 2^53`) the float product is rounded to nearest
+(one part in 2^53), never reordered. -/
+theorem chargeOf_mono (price n1 n2 v1 v2 : Nat) (hp : price < 2 ^ 53) (hle : n1 ≤ n2) (hr : n2 * chunkSize < 2 ^ 63)
+    (h1 : chargeOf price (n1 : Int) = some v1) (h2 : chargeOf price (n2 : Int) = some v2) : v1 ≤ v2 := by
+  unfold chargeOf sizeRead at h1 h2
+  have hc1 : ((n1 : Int) * (chunkSize : Int)) = ((n1 * chunkSize : Nat) : Int) := by push_cast; rfl
+  have hc2 : ((n2 : Int) * (chunkSize : Int)) = ((n2 * chunkSize : Nat) : Int) := by push_cast; rfl
+  have hr1 : n1 * chunkSize < 2 ^ 63 := Nat.lt_of_le_of_lt (Nat.mul_le_mul_right _ hle) hr
+  rw [hc1, wrapI64_small _ hr1] at h1
+  rw [hc2, wrapI64_small _ hr] at h2
+  have hofi : ∀ s : Nat, F64.ofInt (s : Int) = roundDiv false (s * 2 ^ 1074) 1 := by
+    intro s
+    unfold F64.ofInt
+    have : decide ((s : Int) < 0) = false := by simp
+    rw [this]; simp
+  rw [hofi] at h1 h2
+  have hgb : F64.ofNat gb = .fin false (2 ^ 52) 1052 := by decide +kernel
+  rw [hgb] at h1 h2
+  obtain ⟨mp, Ep, hof, _, _⟩ := ofNat_exact price hp
+  rw [hof] at h1 h2
+  have hne : (2 : Nat) ^ 52 ≠ 0 := Nat.pos_iff_ne_zero.mp (p2 52)
+  have key : ∀ P : Nat, leNN (roundDiv false (n1 * chunkSize * P) 1) (roundDiv false (n2 * chunkSize * P) 1) := fun P =>
+    roundDiv_mono Nat.one_pos Nat.one_pos
+      (Nat.mul_le_mul_right 1 (Nat.mul_le_mul_right P (Nat.mul_le_mul_right chunkSize hle)))
+  generalize (2 : Nat) ^ 1074 = P at h1 h2
+  have hs := key P
+  have na1 : NN (roundDiv false (n1 * chunkSize * P) 1) := roundDiv_NN _ _
+  have na2 : NN (roundDiv false (n2 * chunkSize * P) 1) := roundDiv_NN _ _
+  generalize roundDiv false (n1 * chunkSize * P) 1 = a at h1 hs na1
+  generalize roundDiv false (n2 * chunkSize * P) 1 = b at h2 hs na2
+  obtain ⟨da, db, hd⟩ := div_pos_mono (2 ^ 52) 1052 hne a b na1 na2 hs
+  generalize F64.div a (.fin false (2 ^ 52) 1052) = a' at h1 da hd
+  generalize F64.div b (.fin false (2 ^ 52) 1052) = b' at h2 db hd
+  exact trunc_mul_mono mp Ep a' b' da db hd v1 v2 h1 h2
 
 end ZChain.ReadMarker
